@@ -114,6 +114,17 @@ def _remember(d, w, weights):
     return d
 
 
+def _makeiter(d, w, n=3):
+    w("items", [float(i) + 0.5 for i in range(int(n))])      # the real component publishes a one-shot generator of these
+    return None
+
+
+def _itersum(d, w, items):
+    items = list(items)
+    w("iter_total", [float(sum(items)), len(items)])
+    return None
+
+
 def _addnote(d, w, addend=1.0):
     out = d + addend
     w("note", out)
@@ -237,6 +248,8 @@ _c("VInPlaceMul", "op", "Float", "Float", [("factor", 2.0)], lambda d, w, factor
 _c("VCollBumpLast", "op", "Coll", "Coll", [], lambda d, w: (list(d[:-1]) + [d[-1] + 1.0]) if d else [])
 _c("VPoly", "op", "Float", "Float", [("p", REQ), ("q", REQ), ("r", REQ), ("s", 0.0)], lambda d, w, p, q, r, s=0.0: p * d + q + r + s)
 _c("VAddNote", "op", "Float", "Float", [("addend", 1.0)], _addnote, created=("note",))
+_c("VCtxMakeIter", "ctx", "Any", None, [("n", 3)], _makeiter, created=("items",))
+_c("VCtxIterSum", "ctx", "Any", None, [("items", REQ)], _itersum, created=("iter_total",))
 _c("VWeightedScale", "op", "Float", "Float", [("weights", REQ), ("offset", 0.0)], lambda d, w, weights, offset=0.0: d * float(sum(weights)) + offset)
 _c("VRemember", "op", "Float", "Float", [("weights", REQ)], _remember, created=("weights",))
 _c("VTally", "op", "Float", "Float", [("tally", 0.0)], _tally, created=("note",), updates=("tally",))
